@@ -12,3 +12,4 @@ import EcModel.Props.C07
 import EcModel.Props.C12
 import EcModel.Props.C13
 import EcModel.Props.C14
+import EcModel.Props.C13Config
